@@ -422,7 +422,7 @@ def run(w, rep, tier):
     forward_rules(w, rep, "c13", {"C13.clamp": "C17.limits"}, tier)
     # the plant integrates BODY rates (q' = 1/2 q (0, w)): the C16 kinematics obligations; the position set-point handed to
     # the outer loop is the leashed one of input_velocity (translation-invariant 2 m limit): the C15 clamp obligations
-    forward_rules(w, rep, "c16", {"C16.norm": "C17.plant"}, tier)
+    forward_rules(w, rep, "c16", {"C16.norm": "C17.plant", "C16.equivariance": "C17.plant"}, tier)
     forward_rules(w, rep, "c15", {"C15.clamp": "C17.setpoint"}, tier)
     rep.floor("C17.plant", 3)
     rep.floor("C17.setpoint", 9)
